@@ -314,6 +314,18 @@ class Unit:
         for (mod, name) in self.free_fns:
             f = src.free_fns[(mod, name)]
             add(self.emit_fn(None, f, cur_line(), indent=''))
+        # shape laws a hint calls (`law_<name>(..)`) travel with the function: taken from the registry of rendered laws
+        import sym as _sym
+        body_text_so_far = ''.join(out)
+        have = ''.join(self.lemma_texts)
+        for nm in sorted(set(re.findall(r'(?<![A-Za-z0-9_])law_([A-Za-z0-9_]+)\(', body_text_so_far))):
+            if ('proof fn law_%s(' % nm) in have:
+                continue
+            if nm in _sym.LAW_REGISTRY:
+                pa, pb = _sym.LAW_REGISTRY[nm]
+                self.lemma_texts.append(pa)
+                if pb not in self.poly_texts:
+                    self.poly_texts.append(pb)
         add('// ---- law lemmas (pass A)\n')
         for s in self.lemma_texts:
             lo = cur_line()
